@@ -572,8 +572,13 @@ JANET_CORE_FN(cfun_net_connect,
 #else
         if (err != EINPROGRESS) {
 #endif
-            JSOCKCLOSE(sock);
+            /* The stream owns the socket by now: close it through the stream, or its finalizer
+             * would later close whatever descriptor has reused the number. */
+#ifndef JANET_WINDOWS
+            errno = err;
+#endif
             Janet lasterr = janet_ev_lasterr();
+            janet_stream_close(stream);
             janet_panicf("could not connect socket: %V", lasterr);
         }
     }
